@@ -201,12 +201,14 @@ type ZipEnt struct {
 // repository fixture, then one generated line of Pad bytes; or a zip container of such
 // contents.  Ops are applied last.  healthy = the same with every Op removed.
 type Src struct {
-	Fix  string   `json:"fix,omitempty"`  // repo-relative fixture path
-	Text string   `json:"text,omitempty"` // literal text placed before the fixture bytes
-	Pad  int      `json:"pad,omitempty"`  // one generated line of this many bytes appended (no line break inside)
-	Zip  []ZipEnt `json:"zip,omitempty"`
-	Gen  string   `json:"gen,omitempty"` // built-in generated content: rpm-wal-db | rpm-wal-wal (walfixture.go)
-	Ops  []Op     `json:"ops,omitempty"`
+	Fix  string    `json:"fix,omitempty"`  // repo-relative fixture path
+	Text string    `json:"text,omitempty"` // literal text placed before the fixture bytes
+	Pad  int       `json:"pad,omitempty"`  // one generated line of this many bytes appended (no line break inside)
+	Zip  []ZipEnt  `json:"zip,omitempty"`
+	Gen  string    `json:"gen,omitempty"`  // built-in generated content: rpm-wal-db | rpm-wal-wal (walfixture.go)
+	Elf  *ElfSpec  `json:"elf,omitempty"`  // a generated ELF file (synth.go)
+	Bolt *BoltSpec `json:"bolt,omitempty"` // a generated bolt database in containerd's layout (synth.go)
+	Ops  []Op      `json:"ops,omitempty"`
 }
 
 var (
@@ -234,7 +236,7 @@ func readFixture(rel string) ([]byte, error) {
 // Bytes materialises the content; corrupt=false ignores every Op (also the nested ones).
 // Large synthetic containers are memoised (a pure function of the Src value).
 func (s *Src) Bytes(corrupt bool) ([]byte, error) {
-	big := false
+	big := s.Elf != nil && s.Elf.InflateMiB > 0
 	for i := range s.Zip {
 		big = big || s.Zip[i].Src.Pad >= 1<<19
 	}
@@ -288,6 +290,16 @@ func (s *Src) bytes(corrupt bool) ([]byte, error) {
 		}
 		b = buf.Bytes()
 	} else {
+		if s.Elf != nil {
+			b = append(b, s.Elf.bytes()...)
+		}
+		if s.Bolt != nil {
+			bb, err := s.Bolt.bytes()
+			if err != nil {
+				return nil, err
+			}
+			b = append(b, bb...)
+		}
 		switch s.Gen {
 		case "rpm-wal-db":
 			d, _ := base64.StdEncoding.DecodeString(walDB)
@@ -348,6 +360,12 @@ func (s *Src) describe() string {
 	} else {
 		if s.Text != "" {
 			fmt.Fprintf(&sb, "text(%d)+", len(s.Text))
+		}
+		if s.Elf != nil {
+			fmt.Fprintf(&sb, "elf{%s inflate=%dMiB zlib=%v compressed=%v}", s.Elf.Section, s.Elf.InflateMiB, s.Elf.Zlib, s.Elf.Compressed)
+		}
+		if s.Bolt != nil {
+			fmt.Fprintf(&sb, "bolt{%d containers, %d snapshots}", len(s.Bolt.Containers), len(s.Bolt.Snapshots))
 		}
 		sb.WriteString(s.Gen + filepath.Base(s.Fix))
 		if s.Pad > 0 {
